@@ -18,7 +18,8 @@ theorem curly_less (x y : Curly.Cand) :
     sortableCurlyRoutes_Less y.staticCount x.staticCount y.paramCount x.paramCount y.route.path x.route.path
       = Curly.candLess x y := by
   unfold sortableCurlyRoutes_Less Curly.candLess
-  simp only [Int.ofNat_lt, gt_iff_lt, decide_eq_true_eq]
+  repeat' split
+  all_goals (first | rfl | (simp_all <;> omega) | (simp_all; omega) | simp_all)
 
 /-- jsr311.go `sortableRouteCandidates.Less` under `sort.Reverse` (`Less(i, j) = orig.Less(j, i)`):
     with `x` at `i` and `y` at `j` the original is called with `ci = y`, `cj = x` -/
@@ -26,14 +27,16 @@ theorem jsr_route_less (x y : Jsr.RouteCand) :
     sortableRouteCandidates_Less y.literalCount x.literalCount y.matchesCount x.matchesCount
       y.nonDefaultCount x.nonDefaultCount y.route.path x.route.path = Jsr.routeCandLess x y := by
   unfold sortableRouteCandidates_Less Jsr.routeCandLess
-  simp only [Int.ofNat_lt, gt_iff_lt, decide_eq_true_eq]
+  repeat' split
+  all_goals (first | rfl | (simp_all <;> omega) | (simp_all; omega) | simp_all)
 
 /-- jsr311.go `sortableDispatcherCandidates.Less` under `sort.Reverse` -/
 theorem jsr_dispatcher_less (x y : Jsr.DispCand) :
     sortableDispatcherCandidates_Less y.matchesCount x.matchesCount y.literalCount x.literalCount
       y.nonDefaultCount x.nonDefaultCount = Jsr.dispCandLess x y := by
   unfold sortableDispatcherCandidates_Less Jsr.dispCandLess
-  simp only [Int.ofNat_lt, gt_iff_lt, decide_eq_true_eq]
+  repeat' split
+  all_goals (first | rfl | (simp_all <;> omega) | (simp_all; omega) | simp_all)
 
 /-- which ordering is applied where, and by which algorithm: `sort.Sort` (insertion sort up to 12
     elements, which is stable) or `sort.Stable` (stable at every size: what the model's insertion
